@@ -4,7 +4,7 @@
    (wf_cfg: shard WAL on, member-local clamp of ClearEntryLog, propose ids never reused); Refuted.v shows what fails
    for today's variants. Not expressible here (partial claim): timing, timeouts, real network behaviour. *)
 From Coq Require Import List Arith NArith ZArith Bool Lia Permutation.
-From OG Require Import C05.Model C05.Proofs C05.Invariant C05.Theorems C05.Final C05.Trunc C05.TruncProofs.
+From OG Require Import C05.Model C05.Proofs C05.Invariant C05.Theorems C05.Final C05.Trunc C05.TruncProofs C05.Catchup.
 Import ListNotations.
 
 Section C05.
@@ -261,3 +261,85 @@ Example three_file_log_is_wf :
   seek true (layout_files 30000 1 60100) 30001 = SFound 30001%N /\
   send_append true (layout_files 30000 1 60100) 60050 30002 = true.
 Proof. vm_compute. repeat split; try reflexivity; try discriminate. Qed.
+
+(* ---------------------------------------------------------------- catch-up and the data-less raft snapshot (Catchup.v) *)
+Section C05_catchup.
+  Variable raft_ok : sys -> event -> bool.
+  Hypothesis H_elect : forall s n, raft_ok s (RElect n) = true ->
+    up (nodes s n) = true /\ prefixb (glog s) (elog (nodes s n)) = true.
+  Hypothesis H_repl : forall s m k, raft_ok s (RReplicate m k) = true ->
+    exists l, leader s = Some l /\ m <> l /\ up (nodes s m) = true /\ hcommit (nodes s m) <= k /\
+              k <= length (elog (nodes s l)) /\
+              (prefixb (glog s) (elog (nodes s m)) = true -> length (glog s) <= k).
+  Hypothesis H_commit : forall s k, raft_ok s (RCommit k) = true ->
+    exists l, leader s = Some l /\ length (glog s) <= k /\ k <= length (elog (nodes s l)) /\
+              nn (cfg s) < 2 * count (fun m => prefixb (firstn k (elog (nodes s l))) (elog (nodes s m))) (nn (cfg s)).
+  Hypothesis H_learn : forall s m c, raft_ok s (RLearn m c) = true ->
+    up (nodes s m) = true /\ hcommit (nodes s m) <= c /\ c <= length (glog s) /\
+    firstn c (elog (nodes s m)) = firstn c (glog s).
+  (* log matching, second half: replication never removes a committed entry from a follower's log *)
+  Hypothesis H_keep : forall s m k, raft_ok s (RReplicate m k) = true -> lcp (elog (nodes s m)) (glog s) <= k.
+
+  (* for every configuration with the shard WAL and the member-local clamp (trunc_all and snap_install as they are
+     today or repaired), every trace in which each truncation step is [sound] - its index lies inside what EVERY member
+     of the group, also a dead one, holds of the committed sequence; the healthy branch with the Match of all members
+     is of this kind - : in the reached state every node's log starts strictly inside every member's log, i.e. the
+     entry before the member's next one is still in the leader's log, so the leader ships entries and a raft snapshot
+     (which carries no shard data) is never enabled: catch-up from the log is guaranteed. *)
+  Theorem catch_up_from_log_guaranteed : forall c es s n m, base_cfg c ->
+    sound_run raft_ok (init c) es -> run raft_ok (init c) es = Some s -> m < nn c ->
+    (efirst (nodes s n) = 0 \/ efirst (nodes s n) < length (elog (nodes s m))) /\
+    step raft_ok s (RSnapshot m) = None.
+  Proof. exact (catch_up_from_log raft_ok H_elect H_repl H_commit H_learn H_keep). Qed.
+End C05_catchup.
+Print Assumptions catch_up_from_log_guaranteed.
+
+(* what installing a raft snapshot means for the shard of member m: nothing is transferred - the applied and commit
+   indexes jump to the leader's snapshot index, what the member reads (and what survives a kill) is unchanged; and it
+   happens only when the leader's log starts after the member's log ends *)
+Theorem snapshot_install_transfers_no_shard_data : forall raft_ok s m s', step raft_ok s (RSnapshot m) = Some s' ->
+  exists l, leader s = Some l /\
+    view (nodes s' m) = view (nodes s m) /\ dview (nodes s' m) = dview (nodes s m) /\
+    applied (nodes s' m) = snap (nodes s l) /\ hcommit (nodes s' m) = snap (nodes s l) /\
+    length (elog (nodes s m)) < efirst (nodes s l).
+Proof. exact snapshot_install_no_data. Qed.
+Print Assumptions snapshot_install_transfers_no_shard_data.
+
+(* the five raft hypotheses are satisfiable together *)
+Example raft_hypotheses_with_keep_satisfiable :
+  (forall s n, raft_ref2 s (RElect n) = true -> up (nodes s n) = true /\ prefixb (glog s) (elog (nodes s n)) = true) /\
+  (forall s m c, raft_ref2 s (RLearn m c) = true ->
+     up (nodes s m) = true /\ hcommit (nodes s m) <= c /\ c <= length (glog s) /\ firstn c (elog (nodes s m)) = firstn c (glog s)) /\
+  (forall s m k, raft_ref2 s (RReplicate m k) = true -> lcp (elog (nodes s m)) (glog s) <= k).
+Proof.
+  split; [|split].
+  - intros s n H; apply ref_elect; apply ref2_ref; assumption.
+  - intros s m c H; apply ref_learn; apply ref2_ref; assumption.
+  - exact ref2_keep.
+Qed.
+
+(* today's configuration, healthy truncation only: the leader flushes and truncates with the Match of all members
+   (entry file 1 = entries 1,2 deleted on the leader), then member 2 is down during an acknowledged overwrite, rejoins
+   and catches up from the log; every step is sound *)
+Definition healthy_trace : list event :=
+  [ RElect 0; Propose 0 [(1%N, 10%Z)]; RReplicate 1 1; RReplicate 2 1; RCommit 1; RLearn 0 1; RLearn 1 1; RLearn 2 1;
+    Apply 0; Apply 1; Apply 2;
+    Propose 0 [(2%N, 20%Z)]; Propose 0 [(3%N, 30%Z)]; RReplicate 1 3; RReplicate 2 3; RCommit 3;
+    RLearn 0 3; RLearn 1 3; RLearn 2 3; Apply 0; Apply 0; Apply 1; Apply 1; Apply 2; Apply 2;
+    UpdSnapc 0; FlushSwap 0; SnapPersist 0; FlushCommit 0;
+    TruncPropose 3; RReplicate 1 4; RReplicate 2 4; RCommit 4; RLearn 0 4; RLearn 1 4; RLearn 2 4; Apply 0; Apply 1; Apply 2;
+    Kill 2; Propose 0 [(1%N, 11%Z)]; RReplicate 1 5; RCommit 5; RLearn 0 5; RLearn 1 5; Apply 0; Apply 1;
+    Restart 2; RReplicate 2 5; RLearn 2 5; Apply 2 ].
+
+Example healthy_truncation_then_catch_up :
+  sound_run raft_ref2 (init (cfg_today 3 2)) healthy_trace /\
+  match run raft_ref2 (init (cfg_today 3 2)) healthy_trace with
+  | Some s => efirst (nodes s 0) = 2 /\ caught_up s 2 = true /\ read s 2 1%N = Some 11%Z /\ length (acked s) = 4
+  | None => False
+  end.
+Proof.
+  split.
+  - vm_compute. repeat split; try exact I. right. intros m Hm.
+    destruct m as [|[|[|m]]]; vm_compute; try lia.
+  - vm_compute. repeat split.
+Qed.
